@@ -14,6 +14,26 @@ import (
 // ---------------------------------------------------------------- alias types used by several monitors
 
 // AStack is a user-declared type derived from Stack without methods of its own.
+// DeepPtr wraps v in depth levels of pointers (*...*T).
+func DeepPtr(v any, depth int) any {
+	rv := reflect.ValueOf(v)
+	for i := 0; i < depth; i++ {
+		p := reflect.New(rv.Type())
+		p.Elem().Set(rv)
+		rv = p
+	}
+	return rv.Interface()
+}
+
+// DeepNil is a nil pointer whose type has depth levels (*...*int)(nil).
+func DeepNil(depth int) any {
+	t := reflect.TypeOf(0)
+	for i := 0; i < depth; i++ {
+		t = reflect.PointerTo(t)
+	}
+	return reflect.Zero(t).Interface()
+}
+
 type AStack stackage.Stack
 
 // SStack is a user-declared type derived from Stack with its own String method
